@@ -37,7 +37,7 @@ ASSUMPTIONS = [
 MANIFEST = {
     "level": LEVEL,
     "technique": "deterministic simulation: seeded check/compile histories with failing definitions injected, each op compared with a fresh-session reference computed in a sibling fork",
-    "text": "Seeded exploration of session histories over two workloads. (1) Generated definition pools of 1-3 modules sharing names: 10-320 ops quick, up to 700 thorough, with immediate repeats and failing definitions injected from 25 mistake kinds incl. comptime bodies that raise and nested recursive functions whose own body fails. (2) The repository's own tests/integration functions (542 items) run in seeded orders with repeats, 8 histories back to back per session, every public API call they make compared with the same item run alone in a fresh session. After every op the canonical HUGR / rendered diagnostic / escaping exception must equal the reference: a fresh session (sibling process forked before any check or compile) for the 6-10 (definition, op) pairs first used latest in the history, the first occurrence in the history for the others. A final round re-compiles definitions once faults stop. Sampling, not proof.",
+    "text": "Seeded exploration of session histories over two workloads. (1) Generated definition pools of 1-3 modules sharing names: 10-320 ops quick, up to 700 thorough, with immediate repeats (also right after a failure) and failing definitions injected from 33 mistake kinds, stratified over the cases, incl. comptime bodies that raise, nested recursive functions whose own body fails, broken helper/overload-variant/struct bodies and wrapper chains that put the failure at dependency depth 1-2; families: generics, nat-generics, overloads, comptime functions and arguments (int/str/bool/float), same-position factory products, Option/Either helpers, generic structs, comptime lists. (2) The repository's own tests/integration functions (542 items) run in seeded orders with repeats, 8 histories back to back per session, every public API call they make compared with the same item run alone in a fresh session. After every op the canonical HUGR / rendered diagnostic / escaping exception must equal the reference: a fresh session (sibling process forked before any check or compile) for the 6-10 (definition, op) pairs first used latest in the history, the first occurrence in the history for the others. A final round re-compiles definitions once faults stop. Sampling, not proof.",
     "note": "Trusted: fork() as the fresh-session reference, the canonicaliser (renumbering of generated names only), the program generator as workload, the compat shim.",
     "design_ref": "DESIGN.md section 3 (C11)",
 }
